@@ -150,11 +150,15 @@ impl Memfs {
 
     // Create a MemfsGuard::Read
     pub(crate) fn read_guard(&self) -> MemfsGuard {
+        #[cfg(feature = "rivia_verif")]
+        verif::emit(verif::GuardEvent::BeforeRead);
         MemfsGuard::Read(self.0.read().unwrap())
     }
 
     // Create a MemfsGuard::write
     pub(crate) fn write_guard(&self) -> MemfsGuard {
+        #[cfg(feature = "rivia_verif")]
+        verif::emit(verif::GuardEvent::BeforeWrite);
         MemfsGuard::Write(self.0.write().unwrap())
     }
 
@@ -583,6 +587,125 @@ impl Memfs {
         self._add(guard, entry_opts.build())?;
 
         Ok(link)
+    }
+}
+
+/// Verification hooks, only compiled with the `rivia_verif` feature
+/// * guard events emitted immediately before a guard is acquired and when it is dropped
+/// * a structured snapshot of the complete internal state
+#[cfg(feature = "rivia_verif")]
+pub mod verif {
+    use std::sync::{Arc, RwLock};
+
+    use super::*;
+
+    #[derive(Debug, Clone, Copy, PartialEq, Eq)]
+    pub enum GuardEvent {
+        BeforeRead,
+        BeforeWrite,
+        ReleaseRead,
+        ReleaseWrite,
+    }
+
+    type Hook = Arc<dyn Fn(GuardEvent) + Send + Sync>;
+
+    lazy_static::lazy_static! {
+        static ref GUARD_HOOK: RwLock<Option<Hook>> = RwLock::new(None);
+    }
+
+    /// Install or remove the process wide guard event hook
+    pub fn set_guard_hook(hook: Option<Hook>) {
+        *GUARD_HOOK.write().unwrap() = hook;
+    }
+
+    pub(crate) fn emit(event: GuardEvent) {
+        let hook = GUARD_HOOK.read().unwrap().clone();
+        if let Some(hook) = hook {
+            hook(event);
+        }
+    }
+
+    /// One entry of the namespace exactly as stored
+    #[derive(Debug, Clone, PartialEq, Eq)]
+    pub struct EntrySnapshot {
+        pub key: PathBuf,
+        pub path: PathBuf,
+        pub alt: PathBuf,
+        pub rel: PathBuf,
+        pub dir: bool,
+        pub file: bool,
+        pub link: bool,
+        pub mode: u32,
+        pub uid: u32,
+        pub gid: u32,
+        pub follow: bool,
+        pub children: Option<Vec<String>>,
+    }
+
+    /// Complete internal state of a Memfs instance
+    #[derive(Debug, Clone, PartialEq, Eq)]
+    pub struct Snapshot {
+        pub cwd: PathBuf,
+        pub root: PathBuf,
+        pub entries: Vec<EntrySnapshot>,
+        pub files: Vec<(PathBuf, Vec<u8>, u64, Option<PathBuf>, bool)>,
+        pub poisoned: bool,
+    }
+
+    impl Drop for MemfsGuard<'_> {
+        fn drop(&mut self) {
+            match self {
+                MemfsGuard::Read(_) => emit(GuardEvent::ReleaseRead),
+                MemfsGuard::Write(_) => emit(GuardEvent::ReleaseWrite),
+            }
+        }
+    }
+
+    impl Memfs {
+        /// Snapshot of the complete internal state, sorted by key. Doesn't emit guard events.
+        pub fn verif_snapshot(&self) -> Snapshot {
+            let poisoned = self.0.is_poisoned();
+            let inner = match self.0.read() {
+                Ok(x) => x,
+                Err(e) => e.into_inner(),
+            };
+            let mut entries: Vec<EntrySnapshot> = inner
+                .entries
+                .iter()
+                .map(|(k, e)| EntrySnapshot {
+                    key: k.clone(),
+                    path: e.path.clone(),
+                    alt: e.alt.clone(),
+                    rel: e.rel.clone(),
+                    dir: e.dir,
+                    file: e.file,
+                    link: e.link,
+                    mode: e.mode,
+                    uid: e.uid,
+                    gid: e.gid,
+                    follow: e.follow,
+                    children: e.files.as_ref().map(|x| {
+                        let mut v: Vec<String> = x.iter().cloned().collect();
+                        v.sort();
+                        v
+                    }),
+                })
+                .collect();
+            entries.sort_by(|a, b| a.key.cmp(&b.key));
+            let mut files: Vec<(PathBuf, Vec<u8>, u64, Option<PathBuf>, bool)> = inner
+                .files
+                .iter()
+                .map(|(k, f)| (k.clone(), f.data.clone(), f.pos, f.path.clone(), f.fs.is_some()))
+                .collect();
+            files.sort_by(|a, b| a.0.cmp(&b.0));
+            Snapshot {
+                cwd: inner.cwd.clone(),
+                root: inner.root.clone(),
+                entries,
+                files,
+                poisoned,
+            }
+        }
     }
 }
 
